@@ -33,6 +33,17 @@ type Struct struct {
 type Nil struct{}
 type Opaque struct{ What string }
 
+// List is an array or slice of anything but bytes; elements that are structs are references, so &list[i]
+// is the element itself.
+type List struct{ Elems []interface{} }
+
+// Func is a function value: a function literal with the frame it was made in, or a declared function.
+type Func struct {
+	Lit  *ast.FuncLit
+	Decl *ast.FuncDecl
+	fr   *frame
+}
+
 type Status int
 
 const (
@@ -314,6 +325,9 @@ func (in *Interp) stmt(s ast.Stmt, fr *frame) interface{} {
 		case int64:
 			n = int(c)
 			elem = func(i int) interface{} { return int64(i) }
+		case *List:
+			n = len(c.Elems)
+			elem = func(i int) interface{} { return copyIfValue(c.Elems[i], fr.info.TypeOf(x.X)) }
 		default:
 			in.fail(Unsupported, "range over %T", coll)
 		}
@@ -521,6 +535,17 @@ func (in *Interp) equal(a, b interface{}) bool {
 			return y.Nil
 		}
 		return false
+	case *Func:
+		if _, ok := b.(Nil); ok {
+			return false
+		}
+	case Opaque:
+		if _, ok := b.(Nil); ok {
+			return false
+		}
+		if y, ok := b.(Opaque); ok {
+			return x == y
+		}
 	case Bytes:
 		if _, ok := b.(Nil); ok {
 			return x.Nil
@@ -644,6 +669,11 @@ func (in *Interp) expr(e ast.Expr, fr *frame) interface{} {
 		if v, ok := in.global(o); ok {
 			return v
 		}
+		if f, ok := o.(*types.Func); ok {
+			if fd := in.decls[f]; fd != nil {
+				return &Func{Decl: fd}
+			}
+		}
 		in.fail(Unsupported, "variable %s has no value here", x.Name)
 	case *ast.BinaryExpr:
 		if x.Op == token.LAND {
@@ -711,6 +741,11 @@ func (in *Interp) expr(e ast.Expr, fr *frame) interface{} {
 				in.fail(Panic, "index %d out of range in %s", idx, types.ExprString(x))
 			}
 			return int64(b[idx])
+		case *List:
+			if idx < 0 || int(idx) >= len(b.Elems) {
+				in.fail(Panic, "index %d out of range [0,%d) in %s", idx, len(b.Elems), types.ExprString(x))
+			}
+			return b.Elems[idx]
 		}
 		in.fail(Unsupported, "index into %T", base)
 	case *ast.SliceExpr:
@@ -757,6 +792,28 @@ func (in *Interp) expr(e ast.Expr, fr *frame) interface{} {
 				return Bytes{B: out}
 			}
 		}
+		var elemT types.Type
+		switch u := t.Underlying().(type) {
+		case *types.Slice:
+			elemT = u.Elem()
+		case *types.Array:
+			elemT = u.Elem()
+		}
+		if elemT != nil {
+			l := &List{}
+			for _, el := range x.Elts {
+				if _, isKV := el.(*ast.KeyValueExpr); isKV {
+					in.fail(Unsupported, "keyed array literal")
+				}
+				if cl, ok := el.(*ast.CompositeLit); ok && cl.Type == nil {
+					// {…} with the element type elided
+					l.Elems = append(l.Elems, in.structLit(cl, elemT, fr))
+					continue
+				}
+				l.Elems = append(l.Elems, in.expr(el, fr))
+			}
+			return l
+		}
 		if n, ok := t.(*types.Named); ok {
 			if stt, ok := n.Underlying().(*types.Struct); ok {
 				st := &Struct{Type: n.Obj().Name(), Fields: map[string]interface{}{}}
@@ -779,11 +836,77 @@ func (in *Interp) expr(e ast.Expr, fr *frame) interface{} {
 			}
 		}
 		in.fail(Unsupported, "composite literal of %s", t)
+	case *ast.FuncLit:
+		return &Func{Lit: x, fr: fr}
 	case *ast.BasicLit:
 		in.fail(Unsupported, "literal %s", x.Value)
 	}
 	in.fail(Unsupported, "expression %T", e)
 	return nil
+}
+
+// structLit: a struct literal whose type is given by the context (element of an array literal).
+func (in *Interp) structLit(x *ast.CompositeLit, t types.Type, fr *frame) interface{} {
+	if p, ok := t.Underlying().(*types.Pointer); ok {
+		t = p.Elem()
+	}
+	n, _ := t.(*types.Named)
+	stt, ok := t.Underlying().(*types.Struct)
+	if !ok {
+		in.fail(Unsupported, "composite literal of %s", t)
+	}
+	name := "struct"
+	if n != nil {
+		name = n.Obj().Name()
+	}
+	st := &Struct{Type: name, Fields: map[string]interface{}{}}
+	for i := 0; i < stt.NumFields(); i++ {
+		st.Fields[stt.Field(i).Name()] = zeroOf(stt.Field(i).Type())
+	}
+	for i, el := range x.Elts {
+		if kv, ok := el.(*ast.KeyValueExpr); ok {
+			if id, ok := kv.Key.(*ast.Ident); ok {
+				st.Fields[id.Name] = in.expr(kv.Value, fr)
+				continue
+			}
+			in.fail(Unsupported, "composite literal key")
+		}
+		if i < stt.NumFields() {
+			st.Fields[stt.Field(i).Name()] = in.expr(el, fr)
+		}
+	}
+	return st
+}
+
+// copyIfValue: a struct held by value (not through a pointer) is copied when it is assigned, passed or ranged
+// over; the evaluator keeps structs as references, so the copy is made where the static type says "value".
+func copyIfValue(v interface{}, collT types.Type) interface{} {
+	st, ok := v.(*Struct)
+	if !ok || collT == nil {
+		return v
+	}
+	var elemT types.Type
+	switch u := collT.Underlying().(type) {
+	case *types.Slice:
+		elemT = u.Elem()
+	case *types.Array:
+		elemT = u.Elem()
+	default:
+		elemT = collT
+	}
+	if _, isStruct := elemT.Underlying().(*types.Struct); !isStruct {
+		return v
+	}
+	return st.Copy()
+}
+
+// Copy is a shallow copy (what assigning a struct value does).
+func (s *Struct) Copy() *Struct {
+	n := &Struct{Type: s.Type, Fields: map[string]interface{}{}}
+	for k, v := range s.Fields {
+		n.Fields[k] = v
+	}
+	return n
 }
 
 // global: the initial value of a package-level variable of one of the packages (that library code never
@@ -896,6 +1019,8 @@ func (in *Interp) callExpr(c *ast.CallExpr, fr *frame) interface{} {
 					return int64(len(y.B))
 				case string:
 					return int64(len(y))
+				case *List:
+					return int64(len(y.Elems))
 				}
 				in.fail(Unsupported, "len of this operand")
 			case "panic":
@@ -906,7 +1031,24 @@ func (in *Interp) callExpr(c *ast.CallExpr, fr *frame) interface{} {
 	}
 	fn, _ := typeutil.Callee(fr.info, c).(*types.Func)
 	if fn == nil {
-		in.fail(Unsupported, "call of %s", types.ExprString(c.Fun))
+		// a function value: a literal, a declared function kept in a variable or a field
+		fv, ok := in.expr(c.Fun, fr).(*Func)
+		if !ok {
+			in.fail(Unsupported, "call of %s", types.ExprString(c.Fun))
+		}
+		var args []interface{}
+		sig, _ := fr.info.TypeOf(c.Fun).Underlying().(*types.Signature)
+		for i, a := range c.Args {
+			v := in.expr(a, fr)
+			if sig != nil && i < sig.Params().Len() {
+				v = copyIfValue(v, sig.Params().At(i).Type())
+			}
+			args = append(args, v)
+		}
+		if fv.Decl != nil {
+			return pack(in.call(fv.Decl, nil, args))
+		}
+		return pack(in.callLit(fv, args))
 	}
 	var recv interface{}
 	if se, ok := unparen(c.Fun).(*ast.SelectorExpr); ok {
@@ -915,11 +1057,15 @@ func (in *Interp) callExpr(c *ast.CallExpr, fr *frame) interface{} {
 		}
 	}
 	var args []interface{}
-	for _, a := range c.Args {
+	fsig, _ := fn.Type().(*types.Signature)
+	for i, a := range c.Args {
 		v := in.expr(a, fr)
 		if t, ok := v.([]interface{}); ok && len(c.Args) == 1 {
 			args = append(args, t...)
 		} else {
+			if fsig != nil && i < fsig.Params().Len() && !(fsig.Variadic() && i >= fsig.Params().Len()-1) {
+				v = copyIfValue(v, fsig.Params().At(i).Type())
+			}
 			args = append(args, v)
 		}
 	}
@@ -935,6 +1081,28 @@ func (in *Interp) callExpr(c *ast.CallExpr, fr *frame) interface{} {
 		return pack(res)
 	}
 	in.fail(Unsupported, "call of %s, which has no source here and no model", fn.FullName())
+	return nil
+}
+
+// callLit runs a function literal in a frame that sees the variables of the frame it was made in.
+func (in *Interp) callLit(fv *Func, args []interface{}) []interface{} {
+	fr := &frame{info: fv.fr.info, vars: map[types.Object]interface{}{}}
+	for k, v := range fv.fr.vars {
+		fr.vars[k] = v
+	}
+	i := 0
+	for _, f := range fv.Lit.Type.Params.List {
+		for _, nm := range f.Names {
+			if i < len(args) {
+				fr.vars[fr.info.Defs[nm]] = args[i]
+			}
+			i++
+		}
+	}
+	sig := in.block(fv.Lit.Body.List, fr)
+	if r, ok := sig.(retSig); ok {
+		return r.vals
+	}
 	return nil
 }
 
